@@ -78,6 +78,11 @@ type Gen struct {
 	// "start" / "shutdown" / "both" (Run's goroutine is the reporter).
 	FatalSync string `json:"fatal_sync,omitempty"`
 	FatalComp int    `json:"fatal_comp,omitempty"`
+	// HoldMs > 0: component HoldComp stays inside its Shutdown for that long before it returns (a slow drain, not
+	// a failure).  Nothing in the driver or the oracle depends on the length: it only widens the window in which a
+	// collector that does not wait for the end of that Shutdown would be seen going on.
+	HoldMs   int `json:"hold_ms,omitempty"`
+	HoldComp int `json:"hold_comp,omitempty"`
 }
 
 // Script is one collector run.
@@ -1218,7 +1223,10 @@ func classify(c *vt.C, d *driver) {
 	}
 }
 
-func run(c *vt.C) func(Script) (bool, string, *vt.Finding) {
+func run(c *vt.C) func(Script) (bool, string, *vt.Finding) { return runWith(c, nil) }
+
+// runWith: after (if any) sees the driver of the finished run (event log, what was fired) once the oracle has spoken.
+func runWith(c *vt.C, after func(*driver)) func(Script) (bool, string, *vt.Finding) {
 	return func(s Script) (nontrivial bool, key string, f *vt.Finding) {
 		kb, _ := json.Marshal(s)
 		key = string(kb)
@@ -1273,6 +1281,9 @@ func run(c *vt.C) func(Script) (bool, string, *vt.Finding) {
 		}
 		f = d.oracle()
 		classify(c, d)
+		if after != nil {
+			after(d)
+		}
 		reloaded := w.numRetrieves() >= 2
 		failedReconf := false
 		if n := w.numRetrieves() - 1; n >= 1 {
